@@ -1,0 +1,28 @@
+// Copyright Suneido Software Corp. All rights reserved.
+// Governed by the MIT license found in the LICENSE file.
+
+//go:build verif
+
+package db19
+
+// verifMsgInfo returns the transaction (start) and kind of a checker message
+// that was sent on behalf of a transaction ("" for other messages)
+func verifMsgInfo(msg any) (int, string) {
+	switch msg := msg.(type) {
+	case *ckRead:
+		return msg.t.start, "read"
+	case *ckOutput:
+		return msg.t.start, "output"
+	case *ckDelete:
+		return msg.t.start, "delete"
+	case *ckUpdate:
+		return msg.t.start, "update"
+	case *ckCounts:
+		return msg.t.start, "counts"
+	case *ckCommit:
+		return msg.t.ct.start, "commit"
+	case *ckAbort:
+		return msg.t.start, "abort"
+	}
+	return 0, ""
+}
